@@ -132,8 +132,8 @@ PROPS["C05"] = dict(
           "flips in each of the four fields of EVERY signature envelope (located by parsing the protobuf; semantically identical mutants "
           "skipped), and removal of the main provider from the list. key-assignment: for seeded ads with 2..3 extended-provider entries, ALL "
           "assignments of {ad signer, each entry's own key, a stranger} to the entries: valid iff every non-main entry is sealed by the identity "
-          "it names and the main entry by the ad's signer. Sub-check removal-with-extended-providers: removal ads carrying extended providers whose entries are unsigned, garbage, signed for the non-removal ad, lacking the main provider, or sealed by the ad signer must not verify; library signing of such an ad must be refused or give a fully valid ad. One extended-provider section in ten lists no provider at all (it still carries the override flag, which has a mutation of its own). distinct_nontrivial = distinct (ad shape, signer key type) tuples."),
-    floors={"quick": {"removal_ep_cases": 120, "assignments_invalid": 2000, "assignments_valid": 100, "mut_ep-identity": 200, "mut_previous-link-removed": 200, "env_public_key": 1500, "env_signature": 1500, "main_removed": 100}},
+          "it names and the main entry by the ad's signer. Sub-check removal-with-extended-providers: removal ads carrying extended providers whose entries are unsigned, garbage, signed for the non-removal ad, lacking the main provider, or sealed by the ad signer must not verify; library signing of such an ad must be refused or give a fully valid ad. One extended-provider section in ten lists no provider at all (it still carries the override flag, which has a mutation of its own). Every changed advertisement is also signed again with the library (it still carries the signatures made before the change) and must then verify with the signer. distinct_nontrivial = distinct (ad shape, signer key type) tuples."),
+    floors={"quick": {"changed_ads_signed_again": 3000, "removal_ep_cases": 120, "assignments_invalid": 2000, "assignments_valid": 100, "mut_ep-identity": 200, "mut_previous-link-removed": 200, "env_public_key": 1500, "env_signature": 1500, "main_removed": 100}},
     level_text=("Exploration: real signing and verification over generated advertisements of every shape and key type; every single-value "
                 "mutation the statement lists and located byte flips in every envelope must be rejected; the full assignment space of signing "
                 "keys to extended-provider entries is enumerated per ad."),
@@ -172,9 +172,9 @@ PROPS["C10"] = dict(
           "GetAddrs skips unknown protocols. http-sender: Send/SendJson to a local server, body decoded and compared with the message with "
           "/p2p/<publisher> encapsulated on every decodable address (unknown-protocol ones dropped), sender-level extra data; hostile: seeded "
           "mutants incl. CBOR length-header tampering up to 2^63: error or a message whose re-encoding decodes equal; TotalAlloc <= 4*len+3MiB; "
-          "no panic. Sub-check crafted-lengths assembles messages by hand with each field's declared length at, just over and far over its cap, the declared bytes present or missing: within caps and complete decodes and re-encodes; over a cap is rejected without allocating for the declared length. Every message is also decoded from a buffer that is then overwritten and reused: the decoded message must not change. distinct_nontrivial = distinct (address count, OrigPeer, big extra, CID version, unknown-proto present) tuples, sender "
+          "no panic. Sub-check crafted-lengths assembles messages by hand with each field's declared length at, just over and far over its cap, the declared bytes present or missing: within caps and complete decodes and re-encodes; over a cap is rejected without allocating for the declared length. Every message is also decoded from a buffer that is then overwritten and reused: the decoded message must not change. Sub-check pubsub-sender: 2..6 messages are published back to back through p2psender on a local gossip topic and only then read from a subscription of that topic: each must decode to the message sent, in order. distinct_nontrivial = distinct (address count, OrigPeer, big extra, CID version, unknown-proto present) tuples, sender "
           "configurations and (mutation kind, decoded shape) among ACCEPTED hostile inputs."),
-    floors={"quick": {"crafted_cases": 50, "decoded_from_a_buffer_that_is_then_overwritten": 10000, "crafted_over_cap": 20, "crafted_within_caps_decoded": 12, "hostile_accepted": 300, "hostile_rejected": 10000, "msgs_with_unknown_protocol_addr": 500, "sent_json": 100, "sent_cbor": 100}},
+    floors={"quick": {"pubsub_messages_read_back": 20, "crafted_cases": 50, "decoded_from_a_buffer_that_is_then_overwritten": 10000, "crafted_over_cap": 20, "crafted_within_caps_decoded": 12, "hostile_accepted": 300, "hostile_rejected": 10000, "msgs_with_unknown_protocol_addr": 500, "sent_json": 100, "sent_cbor": 100}},
     max_counters=["max_alloc_per_case"],
     level_text=("Exploration: the real encoder, decoder and HTTP sender are run on seeded messages and on tens of thousands of mutated encodings; "
                 "equality, wire content, panic-freedom and an allocation bound derived from the decoder's field caps are the oracles."),
@@ -239,8 +239,8 @@ PROPS["C09"] = dict(
           "localhost/DNS); every Direct carries a unique marker address so the stream read from Next identifies exactly which calls were "
           "delivered; receiver-concurrent: 3 clients issuing Direct/UncacheCid around the eviction boundary, history checked with porcupine "
           "against the same model; pubsub: three libp2p hosts on one gossip topic (publisher, relay with resend, receiver). "
-          "Every fourth CID of the alphabet shares its digest with its neighbour under another codec and every sixteenth is the CIDv0 form of its neighbour's digest; the pubsub scenario rotates the downstream receiver's allow filter through {only the relay, only the original publisher, none}. One announcement in ten has only private / loopback / unspecified addresses (recognised by a CID of its own): with address filtering on it is delivered without addresses. distinct_nontrivial = sampled distinct exhaustive sequences + history configurations."),
-    floors={"quick": {"delivered_although_republication_failed": 2, "delivered_announcements_without_any_public_address": 3000, "pubsub_republication_of_disallowed_publisher": 1, "pubsub_allow_filter_on_B_only-original-publisher": 1, "evictions": 800, "refresh_on_hit": 2000, "uncache_then_delivered": 100, "rejected_then_delivered": 100, "concurrent_histories": 20, "pubsub_runs_completed": 2, "seqs_with_eviction_and_hit": 100000}},
+          "Every fourth CID of the alphabet shares its digest with its neighbour under another codec and every sixteenth is the CIDv0 form of its neighbour's digest; the pubsub scenario rotates the downstream receiver's allow filter through {only the relay, only the original publisher, none}. One announcement in ten has only private / loopback / unspecified addresses (recognised by a CID of its own): with address filtering on it is delivered without addresses. In the pubsub scenario a burst of five announcements arrives at a second receiver whose consumer is not asking yet: all five are delivered when it does. distinct_nontrivial = sampled distinct exhaustive sequences + history configurations."),
+    floors={"quick": {"pubsub_bursts_delivered_to_a_late_consumer": 2, "delivered_although_republication_failed": 2, "delivered_announcements_without_any_public_address": 3000, "pubsub_republication_of_disallowed_publisher": 1, "pubsub_allow_filter_on_B_only-original-publisher": 1, "evictions": 800, "refresh_on_hit": 2000, "uncache_then_delivered": 100, "rejected_then_delivered": 100, "concurrent_histories": 20, "pubsub_runs_completed": 2, "seqs_with_eviction_and_hit": 100000}},
     watchdog_s={"quick": 900, "thorough": 7200},
     level_text=("Exploration (the small-capacity LRU part is exhaustive up to the stated length): delivery decisions of the real receiver are "
                 "compared call by call with a reference model of 'allowed and not among the 64 most recently seen, un-removed CIDs'; "
@@ -309,7 +309,7 @@ PROPS["C02"] = dict(
           "(only the first corrupts). Three phases per case against one store: corrupted sync, honest retry, resync with another position "
           "corrupted. After EVERY sync every key/value of the destination store is re-hashed with the CID's own function and length, hooks must "
           "name only blocks stored intact, the corrupted sync must fail iff the corrupted response was actually consumed, and the store after "
-          "the honest retry must equal the publisher's. Corruption kind cut-mid-body announces the full length and cuts the connection after k bytes (a read error mid-body); the next answer for that CID then carries only the remainder. Sub-check failing-store: the LOCAL store fails one chosen block write after k bytes and still commits what it has; the sync must fail, nothing that does not hash to its CID may be stored or reported, and the retry with a working store must complete. A third of the corrupt-sync cases mark the subscriber's own link system TrustedStorage; corruption kinds append-whitespace / prepend-whitespace add what a text-oriented host may add around a JSON document. Sub-check branching-traversal: the subscriber follows every link of an advertisement (StrictAdsSelector(false)), advertisements carry entry chunks, one reachable block (advertisement or chunk) is corrupted and the links visited after it answer correctly; the sync must fail, set no latest-synced, neither store nor report the bad block, and the honest retry must store every reachable block. distinct_nontrivial = distinct (hash prefix, corruption, position, mode) tuples."),
+          "the honest retry must equal the publisher's. Corruption kind cut-mid-body announces the full length and cuts the connection after k bytes (a read error mid-body); the next answer for that CID then carries only the remainder. Sub-check failing-store: the LOCAL store fails one chosen block write after k bytes and still commits what it has; the sync must fail, nothing that does not hash to its CID may be stored or reported, and the retry with a working store must complete. A third of the corrupt-sync cases mark the subscriber's own link system TrustedStorage; corruption kinds append-whitespace / prepend-whitespace add what a text-oriented host may add around a JSON document. Sub-check branching-traversal: the subscriber follows every link of an advertisement (StrictAdsSelector(false)), advertisements carry entry chunks, one reachable block (advertisement or chunk) is corrupted and the links visited after it answer correctly; the sync must fail, set no latest-synced, neither store nor report the bad block, and the honest retry must store every reachable block. After every phase the store must hold nothing but blocks of the chain that was asked for (refused bytes are not kept under another name either). distinct_nontrivial = distinct (hash prefix, corruption, position, mode) tuples."),
     floors={"quick": {"mut_append-whitespace": 40, "corrupted_response_among_sibling_links": 150, "subscriber_link_system_marked_trusted": 200, "remainder_only_answers": 60, "store_write_faults_hit": 150, "corrupted_response_consumed": 1500, "audited_store_entries": 5000, "two_address_cases": 200, "big_block_cases": 40, "hash_identity": 100, "hash_sha2-256/16": 100}},
     level_text=("Fault enumeration over (hash prefix x corruption kind x request position x mode), sampled with a seeded PRNG: the real "
                 "subscriber syncs from a real publisher whose responses are corrupted in flight; the destination store is audited entry by entry."),
@@ -334,8 +334,8 @@ PROPS["C04"] = dict(
           "notification. Sub-check unusable-address: the sync fails before any request because no sync client can be made from the addresses "
           "(plain tcp / udp address, or none for an unknown publisher), for subscribers with and without a libp2p host, explicit and "
           "announced; the end of an announcement's handling is detected from the tap counters; same obligations, then the same head with "
-          "the real address. A fifth of the cases reach the publisher over libp2p streams (mount libp2p-stream: the subscriber has a libp2p host of its own; a reset fault resets the stream). Explicit syncs run under a 150 s bounded-progress watchdog: a sync that neither completes nor fails is a violation. distinct_nontrivial = distinct (fault script, mode, mount, address list, baseline kind) tuples."),
-    floors={"quick": {"announced_cases_with_a_concurrency_limit": 40, "mount_libp2p-stream": 80, "unusable_address_syncs_failed": 12, "faulty_syncs_failed": 500, "fault_pairs": 150, "mount_libp2phttp-discovery": 150, "mount_legacy-nopath": 150, "addrs_live-dead": 80, "addrs_dead-live": 80,
+          "the real address. A fifth of the cases reach the publisher over libp2p streams (mount libp2p-stream: the subscriber has a libp2p host of its own; a reset fault resets the stream). Explicit syncs run under a 150 s bounded-progress watchdog: a sync that neither completes nor fails is a violation. A quarter of the single-address cases retry with the publisher's ID alone (no address): the address the failed sync was given must still be known. The fault-free baseline sync is a precondition: it is retried up to three times and a baseline that cannot be established leaves the case inconclusive. distinct_nontrivial = distinct (fault script, mode, mount, address list, baseline kind) tuples."),
+    floors={"quick": {"retries_naming_the_publisher_only": 60, "announced_cases_with_a_concurrency_limit": 40, "mount_libp2p-stream": 80, "unusable_address_syncs_failed": 12, "faulty_syncs_failed": 500, "fault_pairs": 150, "mount_libp2phttp-discovery": 150, "mount_legacy-nopath": 150, "addrs_live-dead": 80, "addrs_dead-live": 80,
                       "fault_hit_reset": 30, "fault_hit_stall": 10, "fault_hit_ctx-cancel": 20, "fault_hit_hook-fail": 20}},
     watchdog_s={"quick": 1200, "thorough": 7200},
     level_text=("Fault enumeration (seeded sample over kind x request index x mode x mount x address list, singles and pairs): real syncs against a "
@@ -357,8 +357,8 @@ PROPS["C06"] = dict(
           "never-reported providers, strangers that start being reported, waits; TTL regimes 'huge' (nothing can expire) and 'tiny' (1 ns, "
           "every step is certainly past it). Every record carries a unique tag and a version, so what Get/List show identifies the delivery "
           "it came from. After every refresh that returned nil the clauses of the statement are checked for every provider; expiry uses "
-          "[before,after] wall-clock intervals and only asserts what is certain. Step kind refresh-cancelled-late ends the caller's context while the last source is answering (that source still delivers); refresh-overlap-cancelled requests a refresh while another one, cancelled afterwards, is inside a source. Source times are written in several zone offsets and with fractional seconds, so text order is not time order. distinct_nontrivial = distinct (configuration, first steps) histories."),
-    floors={"quick": {"lookup_misses_during_a_refresh": 600, "refreshes_cancelled_after_the_last_source_answered": 1500, "refreshes_overlapping_a_cancelled_one": 1500, "refreshes_ok": 1000, "cancelled_then_successful_refresh": 200, "refreshes_overlapping": 300, "negative_hits": 30, "expiries_observed": 100,
+          "[before,after] wall-clock intervals and only asserts what is certain. Step kind refresh-cancelled-late ends the caller's context while the last source is answering (that source still delivers); refresh-overlap-cancelled requests a refresh while another one, cancelled afterwards, is inside a source. Source times are written in several zone offsets and with fractional seconds, so text order is not time order. Sub-check http-source: the library's own HTTP source reads JSON listings whose records advance, regress, disappear and change order between refreshes; the freshest record seen must be shown, a lookup must return the provider asked for, and records handed out earlier must read the same afterwards. distinct_nontrivial = distinct (configuration, first steps) histories."),
+    floors={"quick": {"http_source_refreshes": 300, "lookup_misses_during_a_refresh": 600, "refreshes_cancelled_after_the_last_source_answered": 1500, "refreshes_overlapping_a_cancelled_one": 1500, "refreshes_ok": 1000, "cancelled_then_successful_refresh": 200, "refreshes_overlapping": 300, "negative_hits": 30, "expiries_observed": 100,
                       "miss_fetches_positive": 25, "publications_with_merge": 300, "publications_without_merge": 300, "strangers_start_being_reported": 200}},
     level_text=("Exploration: the real cache is driven through thousands of seeded histories and compared after each step with the clauses of the "
                 "property (presence, freshest record, provenance of the record, monotonicity, TTL, negative caching)."),
